@@ -280,6 +280,7 @@ def classify(unit_runs, prop, baseline, known, all_known=None):
             if ks and all(any((not k.get('sites')) or site_signature(u.g, d.get('site')) in k['sites'] for k in ks) for d in diags):
                 continue
             failed_fns.add(oid.rsplit('::', 1)[0])
+        collateral = {}
         for o in obs:
             out['obligations'].append(o)
             fkey = o.id.rsplit('::', 1)[0]
@@ -303,7 +304,22 @@ def classify(unit_runs, prop, baseline, known, all_known=None):
                         out['unbaselined'].append((o, d, u))
             elif u.invalid or fkey in failed_fns:
                 # function has failures: clauses not mentioned are NOT counted as discharged
-                pass
+                if not u.invalid and isinstance(baseline.get(u.unit), dict) and o.id in baseline[u.unit]:
+                    collateral.setdefault(fkey, []).append(o)
             else:
                 out['discharged'].append(o)
+        # a function with failing clauses none of which is tagged with THIS property: its clauses that carry the property discharged
+        # on the pinned tree and are no longer discharged (Verus proves a function as a whole).  Reported once per function, with the
+        # failing clauses of the function as the reason -- otherwise a change that breaks the proof of a function through a clause
+        # tagged with another property would leave this property's check silent (found with seed C11-update-data-last-scope-only).
+        direct = set(o.id.rsplit('::', 1)[0] for o, _, _ in out['violations']) | set(o.id.rsplit('::', 1)[0] for o, _, _ in out['known'])
+        for fkey, os_ in collateral.items():
+            if fkey in direct:
+                continue
+            why = [(oid, d) for oid, ds in u.failed.items() if oid.rsplit('::', 1)[0] == fkey for d in ds]
+            d0 = dict(why[0][1]) if why else {'message': 'function not verified', 'site': None}
+            d0['message'] = (f'no longer discharged ({len(os_)} obligation(s) of this property in {fkey.split("::", 1)[-1]}): the function fails '
+                             + '; '.join(f'{oid.rsplit("::", 1)[-1]}: {d["message"]} at {d.get("site")}' for oid, d in why[:4]))
+            d0['rendered'] = '\n'.join(d.get('rendered') or '' for _, d in why[:4])
+            out['violations'].append((os_[0], d0, u))
     return out
